@@ -4,6 +4,8 @@ import (
 	"bytes"
 	"fmt"
 	"math/big"
+	"strings"
+	"unicode/utf8"
 
 	secp256k1 "gitlab.com/yawning/secp256k1-voi"
 	"gitlab.com/yawning/secp256k1-voi/secec"
@@ -309,7 +311,36 @@ func runC13(r *mon.Run) {
 	// verified" if the reduced signature is VALID, which needs r < 2^32+977 or
 	// s < 2^256-n: unreachable through honest signing (2^-128) and not constructible
 	// (the challenge hashes r).  The parse stage itself is therefore observed.
-	runColdStart(r, "c13", r.N(12, 200), "schnorrverify", "schnorrsign")
+	// the pre-hash helper shares the tagged-hash routine with verification: names related to the
+	// tags BIP-340 itself uses, interleaved with verifications of honest signatures
+	r.Require("c13:prehash:related-name", "c13:prehash:rejected-name")
+	r.Each("c13/prehash", r.N(600, 20000), func(w *mon.W, i int) {
+		rng := w.Rng
+		name, msg := prehashName(rng), rng.Bytes(rng.Intn(100))
+		w.Case(true, []byte("prehash"), []byte(name), msg)
+		got, err := bitcoin.PreHashSchnorrMessage(name, msg)
+		if name == "" || !utf8.ValidString(name) {
+			w.Class("c13:prehash:rejected-name")
+			if err == nil || got != nil {
+				w.Fail("c13/prehash:invalid-name", fmt.Sprintf("PreHashSchnorrMessage accepted the name %q", name))
+			}
+			return
+		}
+		if strings.HasPrefix(name, "BIP0340/") {
+			w.Class("c13:prehash:related-name")
+		}
+		if want := oracle.TaggedHash(name, msg); err != nil || !bytes.Equal(got, want) {
+			w.Fail("c13/prehash", fmt.Sprintf("PreHashSchnorrMessage(%q, %x) = %x (err %v), expected the BIP-340 tagged hash %x", name, msg, got, err, want))
+		}
+		d, _ := keyValue(rng)
+		m2 := rng.Bytes(32)
+		sig := oracle.BIP340Sign(d, rng.Bytes(32), m2)
+		_, P := evenKey(d)
+		if pk, err := bitcoin.NewSchnorrPublicKey(b32(P.X)); err != nil || !pk.Verify(m2, sig) {
+			w.Fail("c13/prehash:then-verify", fmt.Sprintf("an honest signature is rejected right after PreHashSchnorrMessage(%q, ...)", name))
+		}
+	})
+	runColdStart(r, "c13", r.N(60, 600), "schnorrverify", "schnorrsign", "prehash")
 	if !hk.HaveBtcParse {
 		r.Note("hook group verif_btcparse unavailable: the parse stage (r < p, s < n rejected rather than reduced) is observed through Verify's verdict only")
 		return
